@@ -8,7 +8,9 @@
 (*        "r1":{"start":s,"rev":b,"cigar":[{"op":"M","n":5},..],"seq":["A",..],"q":[30,..]},     *)
 (*        "r2":{...}}]}                                   a mate key is absent when it is None   *)
 (*  {"ev":"cons","tid":n,"kind":"base"|"perm"|"dup","dove":b,"order":[i,..],                     *)
+(*        "rtype":type name of the returned value,"rlen":its length,"first_type":type of [0],    *)
 (*        "consensus":[{"c":"chr1","pos":p,"b":"A"},..]}      or   "raised":"<ExceptionType>"    *)
+(*        ("consensus" is absent when the returned value does not have the documented shape)     *)
 (*     + "path":"plain"|"probs" (get_consensus() / get_consensus(with_probs_and_obs=True)[0]),    *)
 (*     kind "inc": the same molecule object queried after an intermediate addition (order = the  *)
 (*     fragments added so far), kind "alt": the other return shape at the end of a run; both are *)
@@ -66,16 +68,23 @@ ConsVerdict(e) ==
    and reads that lack the optional MD tag - recorded as observations *)
 Outside(e) == \E i \in DOMAIN e.order : cur[e.order[i]].form \in {"r2only", "r1short", "r2unmapped"} \/ cur[e.order[i]].nomd
 
+(* the documented return shape: a dict, or with with_probs_and_obs a 3-tuple whose first element is that dict *)
+ShapeOK(e) == /\ Has(e, "consensus")
+              /\ IF e.path = "plain" THEN e.rtype = "dict"
+                 ELSE e.rtype = "tuple" /\ e.rlen = 3 /\ e.first_type = "dict"
+
 Verdict(e) ==
     IF e.ev = "mol" THEN "ok"
     ELSE IF e.ev # "cons" THEN "unknown_event"
+    ELSE IF Has(e, "raised") THEN (IF Outside(e) THEN "ok" ELSE "Inv_C13_Majority_raised_" \o e.raised)
+    ELSE IF ~ShapeOK(e) THEN "Inv_C13_ReturnShape"
     ELSE IF Outside(e) THEN "ok"
-    ELSE IF Has(e, "raised") THEN "Inv_C13_Majority_raised_" \o e.raised
     ELSE ConsVerdict(e)
 
 NoteOutside(line, e) ==
     IF e.ev = "cons" /\ Outside(e)
     THEN Note(line, e.tid, IF Has(e, "raised") THEN "outside_quantifier_raised_" \o e.raised
+                           ELSE IF ~Has(e, "consensus") THEN "outside_quantifier_malformed_return"
                            ELSE IF (\E i \in DOMAIN e.order : cur[e.order[i]].nomd) /\ e.consensus = <<>> THEN "reads_without_MD_tag_empty_consensus"
                            ELSE IF (\E i \in DOMAIN e.order : cur[e.order[i]].form = "r2unmapped") THEN "half_mapped_pair_returned"
                            ELSE "outside_quantifier_returned")
